@@ -580,16 +580,16 @@ FSMS = [
 ]
 
 
-def check_fsm(k):
+def check_fsm(k, domain="sync"):
     from amaranth.hdl import Signal, Module
     from amaranth.hdl._ir import Fragment
     states, init, trans = FSMS[k]
-    name = f"fsm{k}"
+    name = f"fsm{k}" + ("" if domain == "sync" else f"[domain={domain}]")
     m = Module()
     ins = [Signal(name="i0"), Signal(name="i1")]
     out = Signal(range(len(states) + 1), name="out")
     ongoing_early = {}
-    with m.FSM(init=init) as fsm:
+    with (m.FSM(init=init) if domain == "sync" else m.FSM(init=init, domain=domain)) as fsm:
         # reference `ongoing` for the last state before any state is defined
         ongoing_early[states[-1]] = fsm.ongoing(states[-1])
         for si, s in enumerate(states):
@@ -618,8 +618,10 @@ def check_fsm(k):
     closed("initial-state", st.init == enc[want_init], {"init": st.init, "expected": enc.get(want_init)})
     closed("ongoing-early-is-same-signal", ongoing_early[states[-1]] is ongoing[states[-1]])
 
-    sync = frag.statements.get("sync", [])
+    sync = frag.statements.get(domain, [])
     comb = frag.statements.get("comb", [])
+    # an FSM lives entirely in its own domain (and comb): the state register is clocked by no other
+    closed("statements-only-in-the-fsm-domain", set(frag.statements) <= {"comb", domain}, {"domains with statements": sorted(frag.statements)})
 
     def body(path):
         lo, hi = shape_range(sh.width, sh.signed)
@@ -728,7 +730,7 @@ def tasks(tier):
     out += [("dsl", k, dom) for k in range(n_programs(tier)) for dom in ("comb", "sync")]
     # the same programs through the netlist lowering (hdl/_ir.py) and the RTLIL back end: C04's evaluators, this property's programs
     out += [("netlist", k, dom) for k in range(n_programs(tier)) for dom in ("comb", "sync")]
-    out += [("fsm", k) for k in range(len(FSMS))]
+    out += [("fsm", k) for k in range(len(FSMS))] + [("fsm", 0, "slow"), ("fsm", 4, "slow")]
     out += [("fsm-nested",)]
     return out
 
@@ -762,7 +764,7 @@ def run_task(task):
             o["name"] = "netlist::" + o["name"]
         return r
     if kind == "fsm":
-        return check_fsm(task[1])
+        return check_fsm(task[1], *(task[2:3]))
     if kind == "fsm-nested":
         return check_fsm_nested()
     if kind == "canary-lhs":
@@ -902,5 +904,6 @@ def replay(data):
         return replay_template(t, data["model"], data["obligation"]) is not None
     r = run_task(("dsl", int(data["task"].split("prog")[1].split("/")[0]), data["task"].split("/")[1])) \
         if data["task"].startswith("prog") else (run_task(("fsm-nested",)) if data["task"] == "fsm-nested"
-                                                 else run_task(("fsm", int(data["task"][3:]))))
+                                                 else run_task(("fsm", int(data["task"][3:].split("[")[0]),
+                                                                *([data["task"].split("domain=")[1].rstrip("]")] if "domain=" in data["task"] else []))))
     return any(o["status"] == "refuted" for o in r["obligations"])
